@@ -3,23 +3,26 @@
 Driver = the preset grid itself.  Monitor = outcome of the real run with the
 repository's validation left on: no exception / sys.exit, finite headline >= 0."""
 import collections
+import copy
 import math
-import random
 
 from vlib import capture, workload
 
 ASSUMPTIONS = [
-    "manuscript presets are run with the stale key end_simulation_stocks_ratio renamed to ratio_stocks_untouched (the shipped script's key is rejected by the option dispatcher; recorded as a known finding)",
+    "manuscript presets are extracted from plot_manuscript_figures.py itself by executing its recalculate_plot_* functions with the runner entry points replaced by recorders, and are run exactly as the script submits them (incl. its country lists)",
     "a run is successful iff run_model_no_trade / run_and_analyze_scenario returns without raising and the headline is finite and >= 0",
 ]
 
 
 def presets(tier):
-    pres = workload.yaml_presets() + workload.manuscript_presets()
-    named = dict(pres)
+    """-> list of (name, options, countries or None).  Manuscript presets are taken from the shipped script itself."""
+    pres = [(n, o, None) for n, o in workload.yaml_presets()]
+    pres += [(n, o, cl) for n, o, cl in workload.script_presets()]
     if tier == "thorough":
-        for anchor in ("yaml:argentina:argentina_net_nuclear_resilient", "ms:fig1:no_adaptations"):
-            pres += workload.single_option_variations(anchor, named[anchor])
+        named = {n: o for n, o, _ in pres}
+        anchors = ["yaml:argentina:argentina_net_nuclear_resilient"] + [n for n in named if n.startswith("script:fig1:0:")]
+        for anchor in anchors:
+            pres += [(n, o, None) for n, o in workload.single_option_variations(anchor, named[anchor]) if "scale" in named[anchor]]
     return pres
 
 
@@ -27,20 +30,22 @@ def gen_cases(tier, seed):
     isos = workload.all_isos()
     pres = presets(tier)
     cases = []
-    rnd = random.Random(seed)
     hostile = [i for i in workload.HOSTILE if i in isos]
-    for pi, (name, o) in enumerate(pres):
-        if workload.is_global(o):
-            cases.append(workload.pipeline_case("WOR", o, name))
+    for pi, (name, o, cl) in enumerate(pres):
+        if workload.is_global(o) or cl == ["WOR"]:
+            c = {"kind": "pipeline", "iso": "WOR", "opts": copy.deepcopy(o), "tag": name}
+            cases.append(c)
             continue
-        if tier == "thorough":
+        if cl:
+            sel = cl  # the script runs this preset for a fixed list of countries
+        elif tier == "thorough":
             sel = isos
         else:
             # all countries for two presets (rotating with the seed), hostile subset for the rest
             full = {(seed * 2) % len(pres), (seed * 2 + 5) % len(pres)}
             sel = isos if pi in full else hostile
         for iso in sel:
-            cases.append(workload.pipeline_case(iso, o, name))
+            cases.append({"kind": "pipeline", "iso": iso, "opts": copy.deepcopy(o), "tag": name})
     for n, c in enumerate(cases):
         c["id"] = "%s|%s" % (c["iso"], c["tag"])
     return cases
@@ -53,7 +58,10 @@ def run_case(case, tier):
     if tr.error is not None:
         fc = capture.failure_class(tr)
         obs["failure"] = fc
-        viol.append({"mech": "run_failed", "msg": "%s under %s: %s" % (case["iso"], case["tag"], tr.error[:160]),
+        mech = "run_failed"
+        if "You must specify" in tr.error:
+            mech = "preset_rejected_by_option_dispatcher"
+        viol.append({"mech": mech, "msg": "%s under %s: %s" % (case["iso"], case["tag"], tr.error[:160]),
                      "data": {"iso": case["iso"], "preset": case["tag"], "failure_class": fc,
                               "where": getattr(tr, "error_where", None)}})
     else:
